@@ -30,6 +30,10 @@ EXHAUSTIVE = {"quick": "all 780 sequences of length <=4 over one device, one cou
 # model parameter: False = code as it is now (commit e278b23: the wrap step also sees an empty listing);
 # True = the code before that repair (empty raw dict returned before the wrap step)
 LEGACY_EMPTY = False
+# model of record for the two-thread cases: False = code as it is now (platform read outside any lock: every
+# well-formed schedule is realisable); True = after notes/fixes/C10-read-under-lock.diff (_nowrap_lock held
+# from the read to the end of the wrap step: an overlapping nowrap=True read waits)
+LOCKED = False
 SHARD = 120
 
 NET_NAMES = ["lo", "eth0", "wlan0", "eth0:1", "a:b"]
@@ -162,7 +166,7 @@ def _gen_pub(rng, threads=False, want_empty=False):
             continue
         nowrap = (rng.random() < 0.6) if mixed else True
         per = (rng.random() < 0.6) if totals else True
-        empty = (rng.random() < (0.3 if want_empty else 0.03)) and len(ops) > 0
+        empty = (rng.random() < (0.3 if want_empty else 0.015)) and len(ops) > 0
         snap = kern[fn].snapshot(force_empty=empty)
         ops.append(["call", fn, per, nowrap, snap, tid])
         calls.append((fn, nowrap, snap))
@@ -194,7 +198,7 @@ def _gen_wn(rng, threads=False, malformed=False):
         if x < 0.11:
             ops.append(["clear", "never-used", tid])
             continue
-        snap = kern[nm].snapshot(force_empty=rng.random() < 0.05)
+        snap = kern[nm].snapshot(force_empty=rng.random() < 0.02)
         if malformed and snap and rng.random() < 0.35:
             k = rng.randrange(len(snap))
             snap[k][1] = snap[k][1] + [3] if rng.random() < 0.6 else snap[k][1][:-1]
@@ -227,6 +231,101 @@ def _gen_conc(rng, api):
     if rng.random() < 0.4:
         b.insert(rng.randint(1, len(b)), ["clear", "B", 1])
     return {"kind": "conc", "api": "wn", "cls": "conc-wn", "widths": {"A": 2, "B": 3}, "a": a, "b": b}
+
+
+def _gen_race(rng):
+    """rounds of: solo call | clear | two overlapping calls (read A, read B, wraps in either order)"""
+    fns = rng.choice([["net"], ["net"], ["disk"], ["net", "disk"]])
+    kern = {}
+    for fn in fns:
+        pool = NET_NAMES if fn == "net" else DISK_NAMES
+        kern[fn] = Kernel(rng, rng.sample(pool, rng.choice([1, 1, 2])), 8 if fn == "net" else 9, False,
+                          p_vanish=rng.choice([0.0, 0.0, 0.15]), scale={2: 512, 3: 512} if fn == "disk" else None)
+    monotone = rng.random() < 0.6      # the kernel counters only ever go up
+    rounds, nread, overlap = [], {fn: 0 for fn in fns}, False
+    for _ in range(rng.randint(2, 6)):
+        x = rng.random()
+        if x < 0.1:
+            rounds.append(["clear", rng.randint(0, 1), rng.choice(fns)])
+        elif x < 0.45:
+            fn = rng.choice(fns)
+            nread[fn] += 1
+            rounds.append(["solo", rng.randint(0, 1), fn, True, rng.random() < 0.9])
+        else:
+            a = rng.randint(0, 1)
+            fa, fb = rng.choice(fns), rng.choice(fns)
+            na, nb = rng.random() < 0.85, rng.random() < 0.85
+            nread[fa] += 1
+            nread[fb] += 1
+            overlap = overlap or (na and nb)
+            rounds.append(["pair", a, fa, na, fb, nb, rng.choice(["ab", "ba"])])
+    kernel = {}
+    for fn in fns:
+        k = kern[fn]
+        seq = []
+        for _ in range(nread[fn]):
+            if monotone:
+                k.p_vanish = 0.0
+                snap = k.snapshot()
+                for key in list(k.cur):
+                    k.cur[key] = [v + 1000 for v in k.cur[key]]      # next reading strictly above any backwards step
+                seq.append([[key, [max(v, 0) for v in vals]] for key, vals in snap])
+            else:
+                seq.append(k.snapshot())
+        kernel[fn] = seq
+    if monotone:
+        # make every counter non-decreasing along the read order
+        for fn in fns:
+            best = {}
+            for snap in kernel[fn]:
+                for kv in snap:
+                    b = best.get(kv[0])
+                    if b is not None:
+                        kv[1] = [max(x, y) for x, y in zip(kv[1], b)]
+                    best[kv[0]] = kv[1]
+    cls = "race-" + ("overlap" if overlap else "serial") + ("-monotone" if monotone else "")
+    return {"kind": "race", "cls": cls, "rounds": rounds, "kernel": kernel}
+
+
+RACE_WITNESS = {"kind": "race", "cls": "race-overlap-monotone",
+                "rounds": [["solo", 0, "net", True, True], ["pair", 0, "net", True, "net", True, "ba"], ["solo", 1, "net", True, True]],
+                "kernel": {"net": [[["eth0", [0, 100, 0, 0, 0, 0, 0, 0]]], [["eth0", [0, 150, 0, 0, 0, 0, 0, 0]]],
+                                   [["eth0", [0, 200, 0, 0, 0, 0, 0, 0]]], [["eth0", [0, 210, 0, 0, 0, 0, 0, 0]]]]}}
+
+
+def _race_steps(case, locked):
+    """the schedule as realised: list of ('read', tid, fn, per, nowrap) / ('wrap', tid) / ('clear', tid, fn)"""
+    out = []
+    for r in case["rounds"]:
+        if r[0] == "clear":
+            out.append(("clear", r[1], r[2]))
+        elif r[0] == "solo":
+            out += [("read", r[1], r[2], r[3], r[4]), ("wrap", r[1])]
+        else:
+            _, a, fa, na, fb, nb, order = r
+            b = 1 - a
+            ra, rb = ("read", a, fa, True, na), ("read", b, fb, True, nb)
+            if locked and na and nb:
+                out += [ra, ("wrap", a), rb, ("wrap", b)]       # B's read waits for A's lock
+            else:
+                out += [ra, rb] + ([("wrap", a), ("wrap", b)] if order == "ab" else [("wrap", b), ("wrap", a)])
+    return out
+
+
+def _race_term(case, locked):
+    nxt = {fn: 0 for fn in case["kernel"]}
+    steps = []
+    for st in _race_steps(case, locked):
+        if st[0] == "read":
+            _, tid, fn, per, nowrap = st
+            raw = case["kernel"][fn][nxt[fn]]
+            nxt[fn] += 1
+            steps.append("CRead %s %s %s %s %s" % (G.bo(tid), {"net": "Net", "disk": "Disk"}[fn], G.bo(per), G.bo(nowrap), _gdict(raw)))
+        elif st[0] == "wrap":
+            steps.append("CWrap %s" % G.bo(st[1]))
+        else:
+            steps.append("CClear %s %s" % (G.bo(st[1]), {"net": "Net", "disk": "Disk"}[st[2]]))
+    return "run_race %s" % G.lst(steps)
 
 
 def _enum(nkeys, readings, maxlen):
@@ -290,6 +389,8 @@ def gen_cases(rng, tier):
     for _ in range(15 * n):
         cases.append(_gen_conc(rng, "pub"))
         cases.append(_gen_conc(rng, "wn"))
+    for _ in range(40 * n):
+        cases.append(_gen_race(rng))
     return cases
 
 
@@ -322,6 +423,8 @@ def _is_pub(case):
 
 
 def coq_term(case):
+    if case["kind"] == "race":
+        return "JL [%s; %s]" % (_race_term(case, False), _race_term(case, True))
     ops = _ops_of(case)
     if _is_pub(case):
         return "run_pub %s %s" % (G.bo(LEGACY_EMPTY), G.lst([_pop(o) for o in ops]))
@@ -341,6 +444,13 @@ def _canon_info(info):
 
 
 def coq_struct(case, raw):
+    if case["kind"] == "race":
+        # raw[i] = [model answers, demanded answers, lock_ok] for the schedule as scripted (0) / as realised under the lock (1)
+        assert raw[1][2] is True, "the lock-respecting realisation must satisfy lock_ok"
+        same = _race_steps(case, False) == _race_steps(case, True)
+        rec = raw[1] if (LOCKED and not same) else raw[0]
+        return {"model": [T("Realised", "locked" if (LOCKED and not same) else "scripted"), rec[0]],
+                "spec": {"scripted": raw[0][1], "locked": raw[1][1]}, "scripted_lock_ok": raw[0][2]}
     if _is_pub(case):
         return {"model": raw[0], "spec": raw[1]}
     if case["kind"] == "conc":
@@ -349,6 +459,11 @@ def coq_struct(case, raw):
 
 
 def finding_key(case, coq):
+    if case["kind"] == "race":
+        # two nowrap=True calls overlap: the second platform read falls between the first call's read and its wrap step
+        if _race_steps(case, False) != _race_steps(case, True):
+            return "read-outside-lock"
+        return None
     if _is_pub(case):
         for o in _ops_of(case):
             if o[0] == "call" and o[3] and not o[4]:
@@ -360,6 +475,20 @@ def judge(case, coq, impl):
     from pv.core import Verdict
     if isinstance(impl, dict) and impl.get("t") == "Skip":
         return Verdict("skip", str(impl.get("a")))
+    if case["kind"] == "race":
+        if not (isinstance(impl, list) and len(impl) == 2 and isinstance(impl[0], dict) and impl[0].get("t") == "Realised"):
+            return Verdict("corr", "unexpected result shape")
+        how = impl[0]["a"][0]
+        if how not in coq["spec"]:
+            return Verdict("corr", "the implementation realised neither the scripted nor the lock-respecting schedule: %s" % how)
+        want = coq["spec"][how]
+        if want is not None and impl[1] != want:
+            j = next((i for i, (a, b) in enumerate(zip(impl[1], want)) if a != b), min(len(impl[1]), len(want)))
+            return Verdict("violation", "two threads, schedule realised as %s: answer %d is %s, demanded (raw kernel readings in read order) %s" % (
+                how, j, impl[1][j] if j < len(impl[1]) else None, want[j] if j < len(want) else None))
+        if impl != coq["model"]:
+            return Verdict("corr", "impl != model (%s)" % how)
+        return Verdict("ok")
     model, spec = coq["model"], coq["spec"]
     has_info = case["kind"] == "wn"
     trace = impl[0] if has_info else impl
@@ -448,9 +577,12 @@ def _do_wn(psutil, root, o):
 
 def _info(psutil):
     cache, rem, rk = psutil._common.wrap_numbers.cache_info()
-    assert set(cache) == set(rem) == set(rk), (cache, rem, rk)
     out = []
-    for name in cache:
+    for name in sorted(set(cache) | set(rem) | set(rk)):
+        if not (name in cache and name in rem and name in rk):
+            # the model keeps the three maps keyed alike; report the disagreement as an answer, not as a crash
+            out.append([B(name), T("InconsistentMaps", name in cache, name in rem, name in rk)])
+            continue
         out.append([B(name), sorted([[B(k), [int(x) for x in v]] for k, v in cache[name].items()], key=lambda kv: kv[0]["b"]),
                     sorted([[B(k), i, int(v)] for (k, i), v in rem[name].items()], key=lambda x: (x[0]["b"], x[1])),
                     sorted([[B(k), sorted(i for (_k, i) in s)] for k, s in rk[name].items()], key=lambda x: x[0]["b"])])
@@ -493,6 +625,112 @@ class _Pool:
             t.join()
 
 
+def _run_race(psutil, case):
+    """real threads; the platform read is replaced by a scripted kernel and is the pre-emption point"""
+    import queue
+    import threading
+    plat = psutil._psplatform
+    mtx = threading.Lock()
+    nxt = {fn: 0 for fn in case["kernel"]}
+    log, answers = [], []
+    read_done = [threading.Event(), threading.Event()]
+    go = [threading.Event(), threading.Event()]
+    done = [threading.Event(), threading.Event()]
+    tids = {}
+
+    def fake(fn):
+        def f(*a, **kw):
+            tid = tids[threading.get_ident()]
+            with mtx:
+                snap = case["kernel"][fn][nxt[fn]]
+                nxt[fn] += 1
+                log.append(("read", tid))
+            read_done[tid].set()
+            if not go[tid].wait(20):
+                raise RuntimeError("harness: no permission to continue")
+            return {k: tuple(v) for k, v in snap}
+        return f
+
+    qs = [queue.Queue(), queue.Queue()]
+
+    def worker(tid):
+        tids[threading.get_ident()] = tid
+        while True:
+            job = qs[tid].get()
+            if job is None:
+                return
+            if job[0] == "clear":
+                fn = {"net": psutil.net_io_counters, "disk": psutil.disk_io_counters}[job[1]]
+                r = outcome(lambda: fn.cache_clear(), lambda r: T("Done"))
+            else:
+                _, name, per, nowrap = job
+                if name == "net":
+                    r = outcome(lambda: psutil.net_io_counters(pernic=per, nowrap=nowrap), _conv_pub)
+                else:
+                    r = outcome(lambda: psutil.disk_io_counters(perdisk=per, nowrap=nowrap), _conv_pub)
+            with mtx:
+                log.append(("clear" if job[0] == "clear" else "wrap", tid))
+                if r.get("t") == "Val":
+                    answers.append(T("Val", [bool(tid), r["a"][0]]))
+                else:
+                    answers.append(r)
+            done[tid].set()
+
+    def need(ev, what, t=20):
+        if not ev.wait(t):
+            raise RuntimeError("harness: timeout waiting for " + what)
+
+    def begin(tid, job):
+        read_done[tid].clear()
+        go[tid].clear()
+        done[tid].clear()
+        qs[tid].put(job)
+
+    saved = (plat.net_io_counters, plat.disk_io_counters)
+    plat.net_io_counters, plat.disk_io_counters = fake("net"), fake("disk")
+    th = [threading.Thread(target=worker, args=(i,), daemon=True) for i in range(2)]
+    for t in th:
+        t.start()
+    try:
+        for r in case["rounds"]:
+            if r[0] == "clear":
+                begin(r[1], ("clear", r[2]))
+                need(done[r[1]], "clear")
+            elif r[0] == "solo":
+                begin(r[1], ("call", r[2], r[3], r[4]))
+                need(read_done[r[1]], "solo read")
+                go[r[1]].set()
+                need(done[r[1]], "solo return")
+            else:
+                _, a, fa, na, fb, nb, order = r
+                b = 1 - a
+                begin(a, ("call", fa, True, na))
+                need(read_done[a], "first read of a pair")
+                begin(b, ("call", fb, True, nb))
+                blocked = not read_done[b].wait(0.3 if (na and nb) else 20)   # waits on a lock held by a?
+                for x in ((a, b) if order == "ab" else (b, a)):
+                    go[x].set()
+                    if x == b and blocked:
+                        continue
+                    need(done[x], "return of a pair member")
+                if blocked:
+                    need(read_done[b], "deferred read")
+                    need(done[b], "deferred return")
+    finally:
+        for g in go:
+            g.set()
+        for q in qs:
+            q.put(None)
+        for t in th:
+            t.join(5)
+        plat.net_io_counters, plat.disk_io_counters = saved
+    real = [(k, t) for k, t in log]
+    for how, locked in (("scripted", False), ("locked", True)):
+        if real == [(st[0], st[1]) for st in _race_steps(case, locked)]:
+            return [T("Realised", how), answers]
+    return [T("Realised", "other: %r" % (real,)), answers]
+
+
 def _stopped(r):
     return isinstance(r, dict) and r.get("t") == "Exc"
 
@@ -511,6 +749,8 @@ def impl_run(case, coq, env):
     wn = psutil._common.wrap_numbers
     wn.cache_clear()
     try:
+        if case["kind"] == "race":
+            return _run_race(psutil, case)
         do = _do_pub if _is_pub(case) else _do_wn
         if case["kind"] == "conc":
             res = {0: [], 1: []}
